@@ -164,6 +164,8 @@ def run_impl(case):
                    mass=[float(v) for v in c.mass], npts=int(c.npts))
         e = _try(lambda: float(c.expect(f)))
         out["expect"] = e if isinstance(e, dict) else (None if (e != e or math.isinf(e)) else e)
+        v = _try(lambda: float(c.expect_var(f)))
+        out["expect_var"] = v if isinstance(v, dict) else (None if (v != v or math.isinf(v)) else v)
         out["pof"] = float(c.pof(f))
         out["support"] = [list(map(float, p)) for p in c.support()]
         out["support_index"] = [int(i) for i in c.support_index()]
@@ -262,6 +264,9 @@ def oracle(case, obs):
             e = sum(f * ww for f, ww in zip(fx, expw)) / tot
             if isinstance(obs["expect"], dict) or obs["expect"] is None or abs(F(obs["expect"]) - e) > F(1, 10**12) * (1 + abs(e)):
                 out.append(_fail("expect_is_explicit_sum", "product_measure.expect", "value", [obs["expect"], float(e)]))
+            v = sum((fi - e) ** 2 * ww for fi, ww in zip(fx, expw)) / tot
+            if isinstance(obs["expect_var"], dict) or obs["expect_var"] is None or abs(F(obs["expect_var"]) - v) > F(1, 10**9) * (1 + abs(v)):
+                out.append(_fail("expect_var_is_explicit_sum", "product_measure.expect_var", "value", [obs["expect_var"], float(v)]))
         p = sum(ww for f, ww in zip(fx, expw) if f <= 0)
         if F(obs["pof"]) != p:
             out.append(_fail("pof_is_indicator_sum", "product_measure.pof", "value", [obs["pof"], float(p)]))
@@ -296,6 +301,8 @@ Definition natl_eq (a b : list nat) : bool :=
 Definition flin (a : list Q) (b : Q) (x : list Q) : Q :=
   fold_left Qplus (map (fun p => fst p * snd p) (combine a x)) b.
 Definition qclose (a b : Q) : bool := Qle_bool (Qabs (a - b)) ((1 # 1000000000000) * (1 + Qabs b)).
+Definition oq_close9 (m : option Q) (e : option Q) : bool :=
+  match m, e with Some a, Some b => Qle_bool (Qabs (a - b)) ((1 # 1000000000) * (1 + Qabs b)) | None, None => true | _, _ => false end.
 Definition oq_close (m : option Q) (e : option Q) : bool :=
   match m, e with Some a, Some b => qclose a b | None, None => true | _, _ => false end.
 """
@@ -369,6 +376,8 @@ def coq_terms(case, obs):
         f = "(flin %s %s)" % (_ql(case["a"]), qlit(case["b"]))
         if not isinstance(obs["expect"], dict):
             T.append("oq_close (expect NumQ %s %s) %s" % (f, c, opt(obs["expect"], qlit)))
+        if not isinstance(obs.get("expect_var"), dict):
+            T.append("oq_close9 (expect_var NumQ %s %s) %s" % (f, c, opt(obs["expect_var"], qlit)))
         T.append("Qeq_bool (pof NumQ %s %s) %s" % (f, c, qlit(obs["pof"])))
         T.append("qll_eq (support NumQ %s) %s" % (c, _qll(obs["support"])))
         T.append("natl_eq (support_index NumQ %s) %s" % (c, lst(obs["support_index"], natlit)))
